@@ -32,7 +32,7 @@ def classify(case_line):
 CFG = dict(
     imports=["From Verif.C27 Require Import Model Spec.", "From VerifGen Require Import Gen.", "Open Scope N_scope.", "Open Scope string_scope."],
     checker="(check_case genv)",
-    n=dict(quick=160, thorough=6000),
+    n=dict(quick=160, thorough=1920),
     shard=dict(quick=20, thorough=100),
     rule="histories of Config.UpdateFrom calls on a fresh Config (Felix's loading order or a random order, sources "
          "sometimes loaded twice, empty updates, empty values; in 1/5 of the cases followed by an UpdateFromConfigUpdate "
